@@ -2247,6 +2247,28 @@ impl Interpreter {
         Err(JsError::reference_error(name.to_string()))
     }
 
+    /// Whether `name` resolves to a binding of the current scope chain (initialized or
+    /// still in its temporal dead zone) or to a property of the global object.
+    pub(crate) fn env_has_binding(&self, name: &JsString) -> bool {
+        let mut current = Some(self.env.cheap_clone());
+        let key = VarKey(name.cheap_clone());
+        while let Some(env) = current {
+            let env_ref = env.borrow();
+            if let Some(data) = env_ref.as_environment() {
+                if data.bindings.contains_key(&key) {
+                    return true;
+                }
+                current = data.outer.cheap_clone();
+            } else {
+                break;
+            }
+        }
+        self.global
+            .borrow()
+            .get_property(&PropertyKey::String(name.cheap_clone()))
+            .is_some()
+    }
+
     /// Resolve an import binding by reading from the module's environment
     /// This handles both direct exports (ModuleExportGetter) and re-exports (ModuleReExportGetter)
     fn resolve_import_binding(&self, import_binding: &ImportBinding) -> Result<JsValue, JsError> {
